@@ -167,6 +167,28 @@ func RunMaskTrace(cfg MaskTraceConfig, res *core.Result) error {
 			}
 			id := live[r.Intn(len(live))]
 			o := objs[id]
+			if kind == "bdn" && r.Intn(4) == 0 {
+				// aggregation interleaved with the mask calls: the key the object reports now, and the key of a
+				// fresh canonical-route mask (NewMask(nil) + SetBit) over the bits Mask() shows now
+				sch := newCombo(names[t%len(names)]).bdnScheme()
+				got, err := sch.AggregatePublicKeys(o.b)
+				bits, _ := bitsOf(o.b.Mask(), n)
+				ref, _ := bdn.NewMask(kg, pubs, nil)
+				for _, i := range bits {
+					_ = ref.SetBit(i, true)
+				}
+				want, err2 := sch.AggregatePublicKeys(ref)
+				gh, wh := "error", "error"
+				if err == nil && err2 == nil {
+					gb, _ := got.MarshalBinary()
+					wb, _ := want.MarshalBinary()
+					gh, wh = fmt.Sprintf("%x", gb), fmt.Sprintf("%x", wb)
+				}
+				st := o.state(n)
+				st["key"] = gh
+				emit(map[string]any{"ev": "AggKey", "obj": id, "seq": seq, "args": map[string]any{"canon": wh}, "ret": retOf(err), "state": st})
+				continue
+			}
 			switch {
 			case choice == 1 && kind == "bdn" && len(dead) > 0:
 				dst := dead[0]
